@@ -44,8 +44,40 @@ FIXED = [
  ("C39", "fix: bootloader start flash response carries", "start flash response checksum covered data received before it was sent (checksum:start-flash-response-covers-data-received-before-it-was-sent)"),
  ("C39", "fix: bootloader flash completion does not free", "stale flash completion freed the buffer being filled (flush:refused-with-pending-data:after-end_flash-of-an-earlier-session)"),
  ("C40", "fix: cycling speed control point only blocks", "malformed control point write blocked all later procedures (blocked-in-progress:after-rejected-malformed-write)"),
+ ("C19", "fix: L2CAP reassembly stays within its buffer", "start(65)+continuations overflowed receive_buffer_ (rx-overflow:fragment-exceeds-remaining), start fragment during reassembly mixed SDUs (rx-overflow:start-during-reassembly, rx-overflow:rejected-start-during-reassembly, rx-sdu-mismatch:start-during-reassembly, rx-sdu-mismatch:rejected-start-during-reassembly), pass-through PDU during reassembly delivered twice (rx-duplicate-delivery:passthrough-pdu-during-reassembly)"),
+ ("C23", "fix: output that is already waiting is generated before", "notification queued before end_event() waited for the full peripheral latency (ll-plan:outgoing-data-created-after-planning-waits-for-latency)"),
+ ("C36", "fix: legacy pairing response of the combined security manager", "combined SM legacy response with OOB flag 0 although OOB data was used for the method (response:oob-flag-missing:combined:legacy)"),
+ ("C36", "fix: combined security manager does not select LESC OOB", "request 01 00 00 08 10 07 07 with legacy OOB data present stored oob_authentication for LESC (method:oob-wrongly-chosen:combined:lesc)"),
+ ("C06", "fix: cstring_value and fixed_blob_value honour no_read_access", "cstring_value + no_read_access readable (no-read-access-ignored:cstring-wrapper)"),
+ ("C06", "fix: a write to a fixed value without read access", "fixed_uintN_value + no_read_access: write answered with Read Not Permitted (wrong-error-code:fixed:write:got-02-want-03)"),
+ ("C32", "fix: LESC numeric comparison sends its DHKey check only", "Eb sent and pairing completed without (or with a wrong) Ea (order:eb-sent-without-verified-ea:ea-not-received / :wrong-ea-received-while-waiting)"),
+ ("C33", "fix: LESC numeric comparison sends its DHKey check only", "LTK of the unverified pairing offered and bonded (keys:offered-without-pairing-or-bond:ediv0-rand0:unverified-completion, keys:bond-stored-without-pairing:unverified-completion)"),
+ ("C32", "fix: a user response to a pairing request is ignored", "late user answer after an aborted pairing completed it (order:stale-user-answer-changes-pairing-state:after-abort)"),
+ ("C35", "fix: LESC security manager reports an authenticated key", "LESC-only SM reported unauthenticated after numeric comparison (status:unauthenticated-but-exchange-authenticated:lesc-numeric-comparison)"),
+ ("C35", "fix: LESC pairing is only reported as authenticated after", "combined SM reported authenticated for LESC passkey/OOB that run Just Works (status:authenticated-but-exchange-unauthenticated:lesc-passkey-io / :lesc-oob-indicated)"),
+ ("C07", "fix: Prepare Write checks the attribute with the security", "Prepare Write to a requires_encryption value refused with 0x05 on an encrypted link (prepare-refused-but-write-permitted:requires_encryption-value:encrypted-link)"),
+ ("C05", "fix: Prepare Write checks the attribute with the security", "Prepare Write on an unencrypted link with a key answered 0x05 instead of 0x0F (wrong-error-code:prepare-write:got-05-want-0f)"),
+ ("C01", "fix: Prepare Write checks the attribute with the security", "Prepare Write 16 04 00 00 00 to a CCCD / to a control point value dereferenced a null client configuration (crash:prepare-write:cccd, crash:prepare-write:value-control-point)"),
+ ("C07", "fix: Prepare Write does not call write handlers", "Prepare Write called the user write handler with size 0 (prepare-changes-value:write-handler-called-with-zero-length)"),
+ ("C07", "fix: link layer tells the server when a connection ended", "prepared writes survived a disconnect and were executed by the next client (prepared-writes-survive-disconnect:link-layer-never-calls-client_disconnected)"),
+ ("C08", "fix: notifications and indications are clipped", "notification of a 250 octet value was 65 octets long with MTU 23 (pdu-exceeds-mtu:l2cap_output:buffer=server-max / buffer=512)"),
+ ("C02", "fix: an ending handle within a gap of fixed handles", "Read By Type 08 0100 0400 0328 returned handle 0x20 (handle-out-of-range:read-by-type:above-end:end-off-attribute)"),
+ ("C02", "fix: Read By Group Type compares the ending handle", "10 0100 0300 0028 also returned 0x0004..0x0006 (handle-out-of-range:read-by-group-type:above-end:*)"),
+ ("C02", "fix: an ending handle before the first attribute", "04 0100 0100 returned the whole table (handle-out-of-range:find-information:above-end:end-off-attribute; C03 fbtv-handle-out-of-range:above-end:end-off-attribute)"),
+ ("C02", "fix: Find Information answers Attribute Not Found", "04 0400 0400 inside a gap answered 05 01 (empty-data-response:find-information:no-match)"),
+ ("C02", "fix: Read By Type finds characteristic values by their 128", "Read By Type with a 128 bit UUID never matched (not-found-although-match:read-by-type:type128)"),
+ ("C02", "fix: automatically generated characteristic UUIDs", "auto UUID characteristic reported the service UUID (type-mismatch:find-information:auto-uuid-characteristic; C04 char-decl:wrong-uuid:auto-uuid-characteristic)"),
+ ("C03", "fix: primary service discovery does not report secondary", "10 0100 ffff 0028 reported a secondary service (rbgt-returns-secondary, fbtv-returns-secondary)"),
+ ("C04", "fix: attribute handles of a service with include", "service with include_service<>: last attributes got handle 0 (handle-by-index:mismatch:service-with-include and all *:cfg-with-include / *-with-include signatures of C02/C03)"),
+ ("C17", "fix: a new PDU with a failing MIC is not acknowledged", "new data PDU with MIC error answered with advanced NESN (nesn-advanced-on-mic-failure:new-pdu)"),
 ]
 FINDINGS = [
+ dict(property="C02", signature="closure-missed:find-information:skipped-other-uuid-size", what="Find Information stops at the first attribute with the other UUID size only if it is the first one; otherwise attributes of the other UUID size are skipped and never reported by iterating from last+1 (mix128: iterating 1..4 yields 1,2,4, never 3); pinned by tests/att/find_information_tests.cpp ...all_16bit_uuids_will_be_served"),
+ dict(property="C02", signature="closure-missed:read-by-type:skipped-other-value-length", what="Read By Type skips matching attributes whose value length differs from the first one and continues; the skipped ones are never reported by iterating from last+1 (mix128: 0x2803 yields 2,6, never 4); pinned by tests/att/read_by_type_tests.cpp read_multiple_attributes_within_mixed_size"),
+ dict(property="C04", signature="include-decl:wrong-handles:fixed-handles", what="include declaration of a service that has attribute_handle<> pinned handles names index based handles (inclfixed: 1..3, real range 8..10): service_handles<> ignores fixed handles; a repair needs a handle mapping for secondary_service<> (tests/service_tests.cpp stops compiling with the simple translation)"),
+ dict(property="C06", signature="no-read-access-ignored:handler", what="characteristic with read handler + no_read_access (+ notify): properties show no Read bit, but a Read Request returns the value: value_handler_base never consults no_read_access; the notification read in server::l2cap_output uses the same access type, so a repair needs a new access type"),
+ dict(property="C18", signature="alloc-refused:empty-ring:size-le-Size-1", what="pdu_ring_buffer: pop_end() leaves front_ == end_ in mid-buffer, the emptied ring then refuses allocations its documentation promises (Size 12: alloc 3, push, pop, alloc 10 refused); the one line repair breaks three tests of tests/link_layer/ring_buffer_tests.cpp that pin the placement (when_splitted_full_allocation_not_possible, access_to_allocated_small_block_at_the_end, nearly_max_alloc_from_empty_buffer)"),
+ dict(property="C18", signature="rx-buffer-refused:receive-ring-empty", what="same mechanism seen through ll_data_pdu_buffer<61,61>: max_rx_size(31), one 29 octet PDU received and freed, allocate_receive_buffer() is empty for good although the ring is empty"),
  dict(property="C36", signature="method:mitm-rule-ignored:legacy", what="legacy_select_pairing_algorithm ignores AuthReq: with neither side asking for MITM protection (e.g. local DisplayOnly, request 01 02 00 00 10 07 07) Passkey Entry is chosen where Core Vol 3 Part H 2.3.5.1 demands Just Works; not repaired because pairing_tests.cpp (Passkey_Entry_IUT_Responder__Success, AuthReq 0 on both sides) pins the behaviour"),
  dict(property="C36", signature="method:mitm-rule-ignored:lesc", what="lesc_select_pairing_algorithm ignores AuthReq: request 01 02 00 08 10 07 07 to a DisplayOnly device stores passkey entry instead of Just Works; pinned by the numeric comparison tests that use MITM = 0 on both sides (authentication_stage_tests1/2, pairing_tests)"),
  dict(property="C25", signature="scan:answered-but-reference-rejects:unresolved-address-skips-all-checks", what="nrf52_radio_base::is_valid_scan_request(): 'if ( Hardware::resolving_address_invalid() ) return true;' answers any received PDU (shortest: type 0, length 0) with a scan response when the address resolver reports 'not resolved'; needs a third ISR outcome (ignore the PDU), not a local repair"),
